@@ -42,6 +42,7 @@ def check(src, rep):
     rep.guard(rule_join, src, rep, counts)
     rep.guard(rule_just, src, rep, counts)
     rep.guard(rule_split, src, rep, counts)
+    rep.guard(rule_shared_complete, src, rep, counts)
     rep.extracted["counts"] = counts
     rep.floor("delegated method samples", counts.get("delegated", 0), 30)
 
@@ -133,169 +134,203 @@ def _show(got):
 
 
 def rule_join(src, rep, counts):
+    """join is abstractly interpreted on every item list of length 0..3 over the item KINDS (empty / non-empty plain str,
+    empty / non-empty FmtStr): the text must be str.join of the texts and every character keeps its formatting - the
+    separator goes between every two items by position, whatever is empty."""
+    from ..fold import new_interp
+    from ..models import cells
+    import itertools
+    it = new_interp(src)
     f = src.func("formatstring", "FmtStr.join")
-    loops = [n for n in f.node.body if isinstance(n, ast.For)]
-    if len(loops) != 1:
-        raise AnalysisError("FmtStr.join: expected one loop over the items")
-    lp = loops[0]
-    rets = [n for n in f.own_nodes() if isinstance(n, ast.Return)]
-    acc = None
-    if rets and isinstance(rets[0].value, ast.Call) and rets[0].value.args and isinstance(rets[0].value.args[0], ast.Starred):
-        acc = unparse(rets[0].value.args[0].value)
-    if acc is None:
-        raise AnalysisError("FmtStr.join: result is not FmtStr(*<accumulated runs>)")
-    defs = local_defs(f.node)
-    # separator insertion sites
-    sites = []
-    for n in ast.walk(lp):
-        if isinstance(n, ast.Call) and isinstance(n.func, ast.Attribute) and n.func.attr == "extend" and unparse(n.func.value) == acc and n.args:
-            a = unparse(n.args[0])
-            if a == "self.chunks":
-                sites.append((n, "direct"))
-            elif isinstance(n.args[0], ast.Name):
-                ds = [unparse(d) if d is not None else None for d in defs.get(a, [])]
-                if "self.chunks" in ds:
-                    sites.append((n, "flagvar:" + a))
-    if len(sites) != 1:
-        rep.ob("D4-separator-inserted-by-position", f.where(lp), f.scope, "extend(<separator runs>) sites: %d" % len(sites), False,
-               "join must add the separator's runs at exactly one place in the loop")
-        return
-    site, how = sites[0]
-    g = lexical_guard(f.module, site, lp)
-    ok = False
-    why = ""
-    if how.startswith("flagvar:"):
-        var = how.split(":")[1]
-        ds = [unparse(d) if d is not None else None for d in defs.get(var, [])]
-        # before = [] ahead of the loop, before = self.chunks after the extend, unconditionally
-        reass = [n for n in lp.body if isinstance(n, ast.Assign) and unparse(n.targets[0]) == var and unparse(n.value) == "self.chunks"]
-        first_ext = [i for i, s in enumerate(lp.body) if any(x is site for x in ast.walk(s))]
-        ok = sorted(x for x in ds if x) == ["[]", "self.chunks"] and not g and len(reass) == 1 and first_ext and \
-            lp.body.index(reass[0]) > first_ext[0]
-        why = "separator variable %s has definitions %s, guard %s" % (var, ds, g)
-    else:
-        # positional guard: index from enumerate > 0 / a first flag; NOT a test of the accumulator
-        texts = [t for t, p in g]
-        depends_on_acc = any(acc in t.replace("self.chunks", "") for t in texts)
-        positional = False
-        if isinstance(lp.target, ast.Tuple) and isinstance(lp.iter, ast.Call) and unparse(lp.iter.func) == "enumerate":
-            idx = unparse(lp.target.elts[0])
-            positional = any(t in (idx, "%s > 0" % idx, "%s != 0" % idx, "%s >= 1" % idx) and p for t, p in g)
-        for t, p in g:
-            nm = t if t.isidentifier() else None
-            if nm and nm != acc:
-                ds = defs.get(nm, [])
-                consts = [d for d in ds if isinstance(d, ast.Constant) and isinstance(d.value, bool)]
-                if len(consts) == len(ds) >= 2:
-                    positional = True
-        ok = positional and not depends_on_acc
-        why = "the separator is added under %s" % (g,)
-        if depends_on_acc:
-            why += ": that tests what has been accumulated so far, so leading empty items get no separator after them " \
-                   "(','.join(['', 'a']) is ',a')"
-    rep.ob("D4-separator-inserted-by-position", f.where(site), f.scope, unparse(site), ok,
-           "the separator must be inserted before every item except the first, by position; " + why,
-           witness={"example": "fmtstr(',').join(['', 'a']).s must be ',a'"})
-    # every item contributes: FmtStr items their runs, str items a run; anything else raises TypeError
-    paths = enumerate_paths(lp.body)
-    rep.ob("D4-items-kept-in-order", f.where(lp), f.scope, "%d paths through the item loop" % len(paths),
-           all(p.term in (None, "raise") for p in paths), "an item is skipped (continue/break) in join")
+    kinds = {"empty str": lambda: "", "str": lambda: "ab", "empty FmtStr": lambda: mk(it, ("", {})),
+             "FmtStr": lambda: mk(it, ("c", {"fg": 32}), ("d", {"bold": True}))}
+    seps = [[(",", {"fg": 31})], [("", {})], [("-", {}), ("+", {"bg": 44})]]
+    n = bad = 0
+    for sep_runs in seps:
+        for k in range(0, 4):
+            for combo in itertools.product(kinds, repeat=k):
+                items = [kinds[c]() for c in combo]
+                sep = mk(it, *sep_runs)
+                r = it.call1("formatstring", "FmtStr.join", sep, list(items))
+                if r[0] == "opaque":
+                    raise AnalysisError("FmtStr.join outside the evaluated subset: %s" % r[1])
+                n += 1
+                rep.case(k > 1)
+                exp_cells = []
+                for i, x in enumerate(items):
+                    if i:
+                        exp_cells += cells(sep_runs)
+                    exp_cells += cells(runs_of(x)) if isinstance(x, Obj) else cells([(x, {})])
+                ok = r[0] == "ok" and isinstance(r[1], Obj) and cells(runs_of(r[1])) == exp_cells
+                if not ok:
+                    bad += 1
+                    if bad <= 3:
+                        sep_t = "".join(t for t, _ in sep_runs)
+                        rep.ob("D4-join-agrees-with-str", f.where(), f.scope, "%r.join(%s)" % (sep_t, list(combo)), False,
+                               "FmtStr gives %s; str.join gives %r with every character keeping its formatting" %
+                               (_show(r), sep_t.join("".join(t for t, _ in runs_of(x)) if isinstance(x, Obj) else x for x in items)),
+                               witness={"separator": str(sep_runs), "items": list(combo)})
+    if not bad:
+        rep.ob("D4-join-agrees-with-str", f.where(), f.scope, "%d (separator, item-kind list) cases" % n, True)
+    r = it.call1("formatstring", "FmtStr.join", mk(it, (",", {})), [1, 2])
+    rep.ob("D4-join-rejects-non-strings", f.where(), f.scope, "','.join([1, 2])", r == ("raise", "TypeError"), "join of non-strings must raise TypeError, got %s" % (r,))
+    counts["join_cases"] = n
 
 
 def rule_just(src, rep, counts):
+    """ljust/rjust are abstractly interpreted on model values for widths below / at / above the length (the classes of the
+    property's quantifier), for narrow, double-width and combining characters, with and without a fill character: the
+    text must be str.ljust/rjust of the text and every original character keeps its formatting."""
+    from ..fold import new_interp
+    from ..models import cells
+    it = new_interp(src)
+    texts = ["ab", "\uff25a", "a\u0301b", "x"]
+    layouts = []
+    for t in texts:
+        layouts.append([(t, {"fg": 31})])
+        if len(t) > 1:
+            layouts.append([(t[:1], {"fg": 31, "bg": 44}), (t[1:], {"bg": 44})])
+    layouts.append([("ab", {}), ("", {"bold": True}), ("cd", {})])
+    n = bad = 0
     for name in ("ljust", "rjust"):
         f = src.func("formatstring", "FmtStr." + name)
-        width = f.params()[1]
-        fill = f.params()[2]
-        defs = single_defs(f.node)
-        pad = defs.get("to_add")
-        if pad is None:
-            # find a local multiplied blank
-            for k, v in defs.items():
-                if isinstance(v, ast.BinOp) and isinstance(v.op, ast.Mult):
-                    pad = v
-        ok = False
-        lin = None
-        if isinstance(pad, ast.BinOp) and isinstance(pad.op, ast.Mult):
-            cnt = pad.right if isinstance(pad.left, ast.Constant) else pad.left
-            ch = pad.left if isinstance(pad.left, ast.Constant) else pad.right
-            lin = _linear(cnt, {})
-            ok = isinstance(ch, ast.Constant) and ch.value == " " and lin in ({width: 1, "len(self.s)": -1}, {width: 1, "len(self)": -1})
-        rep.ob("D5-pad-counts-characters", f.where(), f.scope, "%s: pad = %s" % (name, unparse(pad) if pad is not None else "<none>"), ok,
-               "str.%s pads to `width` CHARACTERS: the number of blanks must be width - len(text); found the count %s (display "
-               "columns differ from characters for wide, combining and control characters)" % (name, lin))
-        # fillchar branch delegates to str
-        rets = [n for n in f.own_nodes() if isinstance(n, ast.Return)]
-        fc = [r for r in rets if ("%s is not None" % fill, True) in lexical_guard(f.module, r, f.node)]
-        ok = len(fc) == 1 and unparse(fc[0].value) == "fmtstr(self.s.%s(%s, %s), **self.shared_atts)" % (name, width, fill)
-        rep.ob("D5-fillchar-delegates-to-str", f.where(fc[0]) if fc else f.where(), f.scope, unparse(fc[0]) if fc else "<none>", ok,
-               "with a fill character the result must be str.%s on the text, wrapped with the shared attributes only" % name)
-        # side: ljust appends, rjust prepends; nothing added when to_add is empty
-        others = [r for r in rets if r not in fc]
-        for r in others:
-            v = r.value
-            ok = isinstance(v, ast.IfExp) and unparse(v.test) == "to_add"
-            side_ok = False
-            if ok and isinstance(v.body, ast.BinOp) and isinstance(v.body.op, ast.Add):
-                l, rr = unparse(v.body.left), unparse(v.body.right)
-                padded = l if "to_add" in l else rr
-                base = rr if "to_add" in l else l
-                side_ok = ("to_add" in rr and name == "ljust") or ("to_add" in l and name == "rjust")
-                side_ok = side_ok and unparse(v.orelse) == base
-            rep.ob("D5-pad-on-the-right-side", f.where(r), f.scope, unparse(r), ok and side_ok,
-                   "%s must add the padding %s the text and return the text unchanged when no padding is needed"
-                   % (name, "after" if name == "ljust" else "before"))
+        for runs in layouts:
+            text = "".join(t for t, _ in runs)
+            for w in sorted({0, len(text) - 1, len(text), len(text) + 1, len(text) + 3}):
+                for fill in (None, "*"):
+                    obj = mk(it, *runs)
+                    args = (w,) if fill is None else (w, fill)
+                    r = it.call1("formatstring", "FmtStr." + name, obj, *args)
+                    if r[0] == "opaque":
+                        raise AnalysisError("FmtStr.%s outside the evaluated subset: %s" % (name, r[1]))
+                    want = getattr(text, name)(*args)
+                    n += 1
+                    rep.case(w > len(text))
+                    ok = r[0] == "ok" and isinstance(r[1], Obj) and "".join(t for t, _ in runs_of(r[1])) == want
+                    kept = True
+                    if ok and fill is None:
+                        # the original characters keep their own formatting
+                        got_cells = cells(runs_of(r[1]))
+                        orig = cells(runs)
+                        seg = got_cells[:len(orig)] if name == "ljust" else got_cells[len(got_cells) - len(orig):]
+                        kept = [(u, tuple(x for x in e if x[0] != "bg")) for u, e in seg] == \
+                            [(u, tuple(x for x in e if x[0] != "bg")) for u, e in orig]
+                    if not (ok and kept):
+                        bad += 1
+                        if bad <= 4:
+                            rep.ob("D5-just-agrees-with-str", f.where(), f.scope, "%s%r on %s" % (name, args, runs), False,
+                                   "FmtStr gives %s; str.%s gives %r (padding counts CHARACTERS; display columns differ for wide, "
+                                   "combining and control characters)%s" % (_show(r), name, want, "" if kept else "; the original characters lose their formatting"),
+                                   witness={"runs": str(runs), "args": args})
+        if not bad:
+            rep.ob("D5-just-agrees-with-str", f.where(), f.scope, "%s over %d (value, width, fill) cases" % (name, n), True)
+    counts["just_cases"] = n
 
 
 def rule_split(src, rep, counts):
+    """split/splitlines are abstractly interpreted on a representative catalogue (separator absent / present / adjacent / at
+    the ends / self-overlapping, literal vs regex, the same separator string used in both modes one after the other):
+    piece texts must be those of the reference (str.split for literals, re.split for patterns, str.splitlines without
+    keepends for newline-only text) and every character keeps its own formatting."""
+    import re as _re
+    from ..fold import new_interp
+    from ..models import cells
+    it = new_interp(src)
     f = src.func("formatstring", "FmtStr.split")
-    sep, maxsplit, regex = f.params()[1:4]
-    fi = [n for n in f.own_nodes() if isinstance(n, ast.Call) and (src.canon(n.func, f.module) or "") == "re.finditer"]
-    esc = [n for n in f.own_nodes() if isinstance(n, ast.Call) and (src.canon(n.func, f.module) or "") == "re.escape"]
-    finds = [n for n in f.own_nodes() if isinstance(n, ast.Call) and isinstance(n.func, ast.Attribute) and n.func.attr in ("find", "index")]
-    if finds:
-        # a hand-written scan: it must resume after the whole separator
-        bad = None
-        for n in finds:
-            if len(n.args) == 2:
-                lin = _linear(n.args[1], {})
-                if lin is None or lin.get("len(%s)" % sep, 0) != 1:
-                    bad = n
-        rep.ob("D6-scan-is-non-overlapping", f.where(bad or finds[0]), f.scope, unparse(bad or finds[0]), bad is None,
-               "the scan for a literal separator resumes at `%s`, not after the whole separator (i + len(sep)): overlapping "
-               "occurrences are reported, so 'a,,,b'.split(',,') differs from str" % (unparse(bad.args[1]) if bad else ""),
-               witness={"example": "fmtstr('a,,,b').split(',,') must give ['a', ',b']"})
-    if not fi:
-        if not finds:
-            raise AnalysisError("FmtStr.split: neither re.finditer nor a find loop")
-    else:
-        # every finditer pattern is either the regex given, the whitespace default, or the escaped literal
-        ok = True
-        for n in esc:
-            g = lexical_guard(f.module, n, f.node)
-            ok = ok and unparse(n.args[0]) == sep and any(t == regex and not p for t, p in g)
-        lit_ok = bool(esc) or bool(finds)
-        rep.ob("D6-literal-separator-escaped", f.where(esc[0]) if esc else f.where(), f.scope,
-               unparse(esc[0]) if esc else "<no re.escape>", ok and lit_ok,
-               "a literal separator must be matched literally (re.escape(sep) when regex is False)")
-    # pieces: self[start:end] for zip(chain((0,), ends), chain(starts, (len(s),)))
-    rets = [n for n in f.own_nodes() if isinstance(n, ast.Return) and isinstance(n.value, ast.ListComp)]
-    ok = False
-    if len(rets) == 1:
-        lc = rets[0].value
-        g = lc.generators[0]
-        ok = unparse(lc.elt) == "self[%s]" % ":".join(unparse(x) for x in g.target.elts) if isinstance(g.target, ast.Tuple) else False
-        it = g.iter
-        ok = ok and isinstance(it, ast.Call) and unparse(it.func) == "zip" and len(it.args) == 2 and not g.ifs
+    layouts = [
+        [("a,b", {"fg": 31})], [("a,", {"fg": 31}), (",,b", {"bg": 44})], [(",a,", {})], [("aaa", {"bold": True})], [("a b  c", {"fg": 34})],
+        [("", {})], [("a.b", {"fg": 31})], [("x|y", {})], [("ab", {"fg": 31}), ("", {}), ("cd", {"fg": 32})],
+    ]
+    cases = []
+    for runs in layouts:
+        text = "".join(t for t, _ in runs)
+        for sep, regex in ((",", False), (",,", False), ("aa", False), (".", False), (".", True), ("|", True), ("|", False), (None, False),
+                           ("a+", True), (r"\s+", True)):
+            cases.append((runs, text, sep, regex))
+    n = bad = 0
+    for runs, text, sep, regex in cases:
+        obj = mk(it, *runs)
+        if sep is None:
+            r = it.call1("formatstring", "FmtStr.split", obj)
+            want = _re.split(r"\s+", text)
+        elif regex:
+            r = it.call1("formatstring", "FmtStr.split", obj, sep, regex=True)
+            want = _re.split(sep, text) if text or True else [""]
+            # zero-width matches and capture groups are not in the catalogue
+        else:
+            r = it.call1("formatstring", "FmtStr.split", obj, sep)
+            want = text.split(sep)
+        if r[0] == "opaque":
+            raise AnalysisError("FmtStr.split outside the evaluated subset: %s" % r[1])
+        n += 1
+        rep.case(len(want) > 1)
+        ok = r[0] == "ok" and isinstance(r[1], list) and ["".join(t for t, _ in runs_of(x)) for x in r[1]] == want
         if ok:
-            a0, a1 = unparse(it.args[0]), unparse(it.args[1])
-            ok = a0.startswith("chain((0,), ") and a1.startswith("chain(") and a1.endswith(", (len(s),))") and \
-                ("end" in a0 or "for _, " in a0) and ("start" in a1 or ", _ in" in a1)
-    rep.ob("D6-pieces-between-matches-in-order", f.where(rets[0]) if rets else f.where(), f.scope,
-           unparse(rets[0])[:140].replace("\n", " ") if rets else "<none>", ok,
-           "the pieces must be self[previous match end : next match start] from 0 to len(text), in order, none filtered")
-    sl = src.func("formatstring", "FmtStr.splitlines")
-    calls = [n for n in sl.own_nodes() if isinstance(n, ast.Call) and unparse(n.func) == "self.split"]
-    ok = len(calls) == 1 and len(calls[0].args) == 1 and isinstance(calls[0].args[0], ast.Constant) and calls[0].args[0].value == "\n"
-    rep.ob("D6-splitlines-splits-on-newline", sl.where(), sl.scope, unparse(calls[0]) if calls else "<none>", ok,
-           "splitlines must split on the newline character")
+            # formatting: concatenating the pieces' cells with the separators removed gives the original cells in order
+            got = [c for x in r[1] for c in cells(runs_of(x))]
+            orig = cells(runs)
+            it2 = iter(orig)
+            ok = all(any(c == o for o in it2) for c in got)
+        if not ok:
+            bad += 1
+            if bad <= 4:
+                rep.ob("D6-split-agrees-with-reference", f.where(), f.scope, "%r.split(%r%s)" % (text, sep, ", regex=True" if regex else ""), False,
+                       "FmtStr gives %s; the reference gives %r" % ([("".join(t for t, _ in runs_of(x))) for x in r[1]] if r[0] == "ok" and isinstance(r[1], list) else r, want),
+                       witness={"text": text, "sep": sep, "regex": regex})
+    if not bad:
+        rep.ob("D6-split-agrees-with-reference", f.where(), f.scope, "%d (text, separator, mode) cases" % n, True)
+    counts["split_cases"] = n
+    # splitlines without keepends
+    g = src.func("formatstring", "FmtStr.splitlines")
+    bad = 0
+    m = 0
+    for text in ("ab\n\n", "\n", "a\nb", "a\n", "", "a\n\nb", "\n\n\n", "abc"):
+        obj = mk(it, (text, {"fg": 31})) if text else mk(it, ("", {}))
+        r = it.call1("formatstring", "FmtStr.splitlines", obj)
+        if r[0] == "opaque":
+            raise AnalysisError("FmtStr.splitlines outside the evaluated subset: %s" % r[1])
+        want = text.splitlines()
+        m += 1
+        rep.case(True)
+        ok = r[0] == "ok" and isinstance(r[1], list) and ["".join(t for t, _ in runs_of(x)) for x in r[1]] == want
+        if not ok:
+            bad += 1
+            if bad <= 3:
+                rep.ob("D6-splitlines-agrees-with-str", g.where(), g.scope, "%r.splitlines()" % text, False,
+                       "FmtStr gives %s; str gives %r" % ([("".join(t for t, _ in runs_of(x))) for x in r[1]] if r[0] == "ok" and isinstance(r[1], list) else r, want))
+    if not bad:
+        rep.ob("D6-splitlines-agrees-with-str", g.where(), g.scope, "%d newline-only texts, keepends=False" % m, True)
+
+
+def rule_shared_complete(src, rep, counts):
+    """D3 wraps text answers with shared_atts: it must report EVERY attribute all characters share (when the first run is
+    non-empty - with an empty first run the pinned code reports nothing, which is sound but incomplete and left alone)."""
+    from ..fold import new_interp
+    import itertools
+    it = new_interp(src)
+    f = src.func("formatstring", "FmtStr.shared_atts")
+    dom = [{}, {"fg": 31}, {"fg": 31, "bold": True}, {"fg": 32, "bold": True}]
+    n = bad = 0
+    layouts = []
+    for a, b in itertools.product(dom, repeat=2):
+        layouts += [[("ab", a), ("cd", b)], [("ab", a), ("", b)], [("ab", a), ("", {}), ("cd", a)], [("ab", a), ("", b), ("cd", a)]]
+    for runs in layouts:
+        obj = mk(it, *runs)
+        r = it.call1("formatstring", "FmtStr.shared_atts", obj)
+        if r[0] == "opaque":
+            raise AnalysisError("shared_atts outside the evaluated subset: %s" % r[1])
+        res = dict(r[1].payload) if r[0] == "ok" and isinstance(r[1], Obj) else dict(r[1]) if r[0] == "ok" else None
+        nonempty = [a for t, a in runs if t]
+        want = dict(nonempty[0])
+        for a in nonempty[1:]:
+            want = {k: v for k, v in want.items() if k in a and a[k] == v}
+        n += 1
+        rep.case(bool(want))
+        if res != want:
+            bad += 1
+            if bad <= 3:
+                rep.ob("D3-shared-atts-exactly-the-shared-formatting", f.where(), f.scope, "runs %s" % runs, False,
+                       "shared_atts gives %s; the formatting shared by all characters is %s (an empty run has no characters)" % (res if res is not None else r, want),
+                       witness={"runs": str(runs)})
+    if not bad:
+        rep.ob("D3-shared-atts-exactly-the-shared-formatting", f.where(), f.scope, "%d layouts with a non-empty first run (empty runs elsewhere)" % n, True)
